@@ -215,7 +215,7 @@ func (c05Stream) Impl(c Case) string {
 		wmu.Unlock()
 	}
 	cl.close()
-	sut.stop(3 * time.Second)
+	sut.finish()
 	return verdict + "\t" + traceString(sut.tr.Snapshot(), "w.")
 }
 
